@@ -23,7 +23,7 @@
    (core.read_col) takes the labels from each dictionary page in turn, so the codes of earlier row
    groups are finally interpreted with the LAST dictionary.                                       *)
 From Coq Require Import NArith Arith List Bool.
-From Pq Require Import Base.Bytes Impl.KV Dataset.Append Dataset.FS Dataset.FsPaths Dataset.Crash Dataset.Ops Dataset.CatRead
+From Pq Require Import Base.Bytes Impl.KV Dataset.Append Dataset.FS Dataset.FsPaths Dataset.Crash Dataset.CrashGen Proofs.CrashGenProofs Dataset.Ops Dataset.CatRead
   Proofs.AppendProofs Proofs.CrashProofs Proofs.OpsProofs Proofs.CatReadProofs.
 Import ListNotations.
 
@@ -177,3 +177,14 @@ Example C07_nonvacuous :
     /\ read_simple N (fun b => b) ex_parse f' = Some [7;7;7;1;2;3;4;5;6]%N
     /\ firstn 7 f' = [80;65;82;49;7;7;7]%N.
 Proof. eexists. vm_compute. repeat split; reflexivity. Qed.
+
+(* wave 3: the same for every trace in the GENERAL commit-point relation (Dataset/CrashGen.v), which is what the recorded
+   trace of every real multi-file append is checked against: no existing data file opened for writing, renamed, removed
+   (nor a directory holding one), every one byte-identical after the whole trace *)
+Theorem C07_multi_existing_untouched_general : forall refs tr, safe_gen refs tr ->
+  (forall p t, In (OpenW p t) tr -> ~ In p refs)
+  /\ (forall a b q, In (Rename a b) tr -> In q refs -> under a q = false /\ under b q = false)
+  /\ (forall p q, In (Remove p) tr -> In q refs -> under p q = false)
+  /\ forall s q, In q refs -> lookup q (run_trace tr s) = lookup q s.
+Proof. exact gen_existing_untouched. Qed.
+Print Assumptions C07_multi_existing_untouched_general.
